@@ -1,6 +1,6 @@
 // token: driver for the token module (properties C09, C10).
 //
-//	gen / replay   (lib.Main)   streams: "main" (C09 histories), "erc20" (C10 histories),
+//	gen / replay   (lib.Main)   streams: "main" (C09 histories), "erc20" (C10 histories, incl. the swap-to-native hook),
 //	                            "lossless" (LossLessSwap as a pure function)
 //	feefactor -out FILE         translator: regenerates coq/Gen/TokenFeeFactor.v by running the
 //	                            module's own calcFeeFactor for symbol lengths 1..64
@@ -23,7 +23,9 @@ import (
 	govtypes "github.com/cosmos/cosmos-sdk/x/gov/types"
 	gogotypes "github.com/cosmos/gogoproto/types"
 	"github.com/ethereum/go-ethereum/common"
+	ethtypes "github.com/ethereum/go-ethereum/core/types"
 
+	"mods.irisnet.org/modules/token/contracts"
 	tokenkeeper "mods.irisnet.org/modules/token/keeper"
 	tokentypes "mods.irisnet.org/modules/token/types"
 	v1 "mods.irisnet.org/modules/token/types/v1"
@@ -293,6 +295,10 @@ func exec(h History) lib.Case {
 	w.holders = append(w.holders, w.accts...)
 	seenH := map[int]bool{}
 	for _, op := range h.Steps {
+		if op.K == "hook" && op.A >= 200 && !seenH[op.A] {
+			seenH[op.A] = true
+			w.holders = append(w.holders, op.A)
+		}
 		if op.K == "toerc20" && op.B >= 200 && !seenH[op.B] {
 			seenH[op.B] = true
 			w.holders = append(w.holders, op.B)
@@ -321,7 +327,12 @@ func exec(h History) lib.Case {
 			lib.Stat(c.Stats, "op:evmmode")
 		} else {
 			snap := w.evm.Snapshot()
-			out := e.Deliver(msg)
+			var out lib.Outcome
+			if op.K == "hook" {
+				out = w.runHook(op)
+			} else {
+				out = e.Deliver(msg)
+			}
 			code = out.Code()
 			if !out.OK() {
 				w.evm.Restore(snap)
@@ -406,8 +417,55 @@ func (w *world) build(op Op) (string, sdk.Msg) {
 				IssueTokenBaseFee: sdk.Coin{Denom: "stake", Amount: sdkmath.NewIntFromBigInt(bigOf(op.Base))}, EnableErc20: op.Enable, Beacon: b}}
 	case "evmmode":
 		return lib.App("EvmMode", z(op.Mode)), nil
+	case "hook":
+		// the contract is the one the token of this min unit is bound to NOW (0: none)
+		_, cid := w.contractOf(op.Min)
+		return lib.App("HookToNative", z(cid), z(op.A), z(op.B), lib.ZB(amt)), nil
 	}
 	panic("unknown op " + op.K)
+}
+
+// contractOf finds the ERC20 contract the token with this min unit is bound to (nil, 0 if none).
+func (w *world) contractOf(min Name) (*common.Address, int) {
+	for _, ti := range w.k.GetTokens(w.e.Ctx, nil) {
+		if ti.GetMinUnit() == min.String() && ti.GetContract() != "" {
+			a := common.HexToAddress(ti.GetContract())
+			return &a, w.contractID(ti.GetContract())
+		}
+	}
+	return nil, 0
+}
+
+// runHook plays one EVM transaction against the bound contract of op.Min: the contract's own
+// swapToNative (simulated: burn op.Amt of holder op.A, emit SwapToNative(from, to, amount)) and then
+// the token keeper's PostTxProcessing hook on the receipt, atomically.
+func (w *world) runHook(op Op) lib.Outcome {
+	amt := bigOf(op.Amt)
+	caddr, _ := w.contractOf(op.Min)
+	return w.e.Try(func(ctx sdk.Context) error {
+		if caddr == nil {
+			return fmt.Errorf("erc20 contract not found")
+		}
+		from := w.eth(op.A)
+		if w.evm.Balance(*caddr, from).Cmp(amt) < 0 {
+			return fmt.Errorf("execution reverted: burn amount exceeds balance")
+		}
+		w.evm.contracts[*caddr][from] = new(big.Int).Sub(w.evm.Balance(*caddr, from), amt)
+		abi := contracts.ERC20TokenContract.ABI
+		ev := abi.Events[contracts.EventSwapToNative]
+		data, err := ev.Inputs.Pack(from, w.addrStr(op.B), amt)
+		if err != nil {
+			return err
+		}
+		transfer := abi.Events["Transfer"]
+		receipt := &ethtypes.Receipt{Logs: []*ethtypes.Log{
+			// an ordinary Transfer log (3 topics) and a SwapToNative log of an unknown contract: both ignored
+			{Address: *caddr, Topics: []common.Hash{transfer.ID, common.BytesToHash(from.Bytes()), {}}, Data: common.LeftPadBytes(amt.Bytes(), 32)},
+			{Address: common.HexToAddress("0x00000000000000000000000000000000000000aa"), Topics: []common.Hash{ev.ID}, Data: data},
+			{Address: *caddr, Topics: []common.Hash{ev.ID}, Data: data},
+		}}
+		return w.k.Hooks().PostTxProcessing(ctx, nil, receipt)
+	})
 }
 
 var tnames = []string{"[do-not-modify]", "Token One", "second token", "x", "a name of thirty-two characters!"}
